@@ -9,8 +9,8 @@ from ..progprop import ProgramProperty
 class C01(ProgramProperty):
     id = "C01"
     theorems = ["C01_parse_none", "C01_parse_some", "C01_parse_longest", "C01_compress", "C01_isUri",
-                "C01_unique_answer", "C01_perm"]
-    lean_modules = ["CuriesVerif.Properties.C01"]
+                "C01_unique_answer", "C01_perm", "C01_incremental"]
+    lean_modules = ["CuriesVerif.Properties.C01", "CuriesVerif.Properties.C09"]
     rule = ("one case = one overlap-lattice record collection (nested / sibling / identical-up-to-one-symbol URI "
             "prefixes, synonyms nested in other records' prefixes, '' in ~12%, delimiters : / :: _ | -:) built four "
             "ways (constructor, shuffled constructor, shuffled add_record sequence from an empty converter, and a converter "
